@@ -7,6 +7,8 @@ def _nontrivial(case, impl, kv):
         return kv.get("changed") == "1"
     if case.startswith("prog "):
         return kv.get("build") == "1"
+    if case.startswith("addr "):
+        return kv.get("changed") == "1" and kv.get("exec") in ("ok", "trap")
     return kv.get("shrunk") == "1"
 
 
@@ -18,7 +20,7 @@ SPEC = dict(
               "C07_partial", "C07_flags_guard_insufficient"],
     steps=[dict(bin="sv_c07", area="c07", n_quick=120, n_thorough=1500, corpus="corpus/c07.txt",
                 dist_keys=("pass", "src", "size", "valid", "pre", "changed", "removed", "res", "lvl", "shrunk",
-                           "profile", "state", "panic", "logs", "build"),
+                           "profile", "state", "panic", "logs", "build", "exec", "stores"),
                 nontrivial=_nontrivial, timeout=3000)],
     rule="(1) kernel, level proof: op lists = corpus + random op lists (1-7 blocks, jumps incl. jumps to the next label, "
          "unreachable tails, dead definitions, dead MOVEs, MOVE r r, NOOP, MCP/MCPI with zero and non-zero length, "
@@ -32,9 +34,17 @@ SPEC = dict(
          "them and labels are unique (what compiled code satisfies; outside of it the passes are not "
          "behaviour preserving: C07_flags_guard_insufficient). `round` lines: whole optimize at both levels, prop = "
          "Opt1 never returns a longer list. "
+         "(1b) kernel, per-list validation of the two UNMODELLED passes: random address-arithmetic op lists (bases: "
+         "known constant, $sp/$hp-derived, unknown = load / call result / label entry; chains of ADD/ADDI/SUB(I)/MULI/MOVE "
+         "in place and not in place, offsets 0,1,7,8,16,24,4088; LW/SW/LB/SB with word offsets up to 4095) go through the "
+         "REAL const_indexing_aggregates_function, constant_propagate and optimize(Opt0); the driver EXECUTES the before and "
+         "after lists on a small interpreter of that op subset (from the ops' Display text); prop = same logged values, "
+         "trap and final memory. "
          "(2) whole programs, level translation_validation (covers ALL passes incl. the unmodelled constant_propagate "
          "and const_indexing_aggregates): std in-language test packages (corpus ones + a seeded sample; all 35 in the "
-         "thorough tier), corpus/c07_extra.sw and generated packages of random well-typed programs are built in child "
+         "thorough tier), corpus/c07_extra.sw, c07_ptrwalk.sw, generated packages of asm blocks that walk an array by "
+         "bumping a pointer in place (by 8k, addi/add/subi) mixed with compiler-generated struct/tuple/array accesses, "
+         "and generated packages of random well-typed programs are built in child "
          "processes with and without SWAY_VERIF_NO_ASM_OPT=1 in the debug and release profiles; every #[test] runs on "
          "the real FuelVM; prop = equal (state, panic reason, logs) per test (gas not compared). "
          "non-trivial = a pass line where the real pass changed the list / a prog line of a package that built",
